@@ -285,6 +285,9 @@ def hand_cases():
     ("closed-slices(control)", base + ["s.o4 //= s.in_[0:4]", "s.p4 //= s.in_[4:8]"], ("sim", lambda v: {"o4": v & 15, "p4": v >> 4})),
     ("open-slice-of-slice", base + ["s.o4 //= s.in_[2:8][:4]", "s.p4 //= s.in_[0:6][2:]"], ("sim", lambda v: {"o4": (v >> 2) & 15, "p4": (v >> 2) & 15})),
     ("stepped-slice", base + ["s.o4 //= s.in_[0:4:2]", "s.p4 //= s.in_[4:8]"], ("error",)),
+    # one constant OBJECT used for two connections and changed in between: each net keeps the value it was connected to
+    ("constant-object-reused", base + ["k = Bits4( 3 )", "s.o4 //= k", "k @= 9", "s.p4 //= k"], ("sim", lambda v: {"o4": 3, "p4": 9})),
+    ("constant-object-changed-later", base + ["k = Bits4( 5 )", "s.o4 //= k", "s.p4 //= s.in_[0:4]", "k @= 12"], ("sim", lambda v: {"o4": 5, "p4": v & 15})),
   ]
 
 
